@@ -1523,6 +1523,18 @@ func (c *Conn) executeQuery(ctx context.Context, qry *Query) *Iter {
 		} else if params.skipMeta {
 			if info != nil {
 				if x.meta.colCount != info.response.colCount {
+					// the server has prepared the statement again since its table changed
+					// (CASSANDRA-10786): what is cached here is stale. Forget it, so that the
+					// next execution prepares again; a read is repeated once, this time
+					// asking for the metadata of its rows
+					stmtCacheKey := c.session.stmtsLRU.keyFor(c.host.HostID(), c.currentKeyspace, qry.stmt)
+					c.session.stmtsLRU.evictPreparedID(stmtCacheKey, info.id)
+					if stmt := strings.TrimSpace(qry.stmt); len(stmt) >= 6 && strings.EqualFold(stmt[:6], "select") {
+						again := new(Query)
+						*again = *qry
+						again.disableSkipMetadata = true
+						return c.executeQuery(ctx, again)
+					}
 					return &Iter{framer: framer, err: fmt.Errorf("gocql: result without metadata has %d columns, the prepared statement has %d", x.meta.colCount, info.response.colCount)}
 				}
 				iter.meta = info.response
